@@ -4,7 +4,7 @@ package c04
 // function per (operation, route), and the observation battery (dump). Getter/setter functions are strict so
 // that a primitive receiver reaches them unboxed.
 const harnessJS = `
-var H = (function(){
+globalThis.H = (function(){ // (assignment, not a declaration: see the "global|var-declaration" finding)
 var H = {};
 var names = new Map(), baseNames = names, worldObjs = [];
 function setName(v, n){ names.set(v, n); worldObjs.push(v); }
@@ -90,6 +90,8 @@ var kinds = {
 	args:    function(w){ return (function(p, q){ w.setP = function(v){ p = v; }; w.getP = function(){ return p; }; w.getQ = function(){ return q; }; return arguments; })(1, 2); },
 	args1:   function(w){ return (function(p, q){ w.setP = function(v){ p = v; }; w.getP = function(){ return p; }; w.getQ = function(){ return q; }; return arguments; })(1); },
 	uargs:   function(w){ return (function(p, q){ 'use strict'; w.setP = function(v){ p = v; }; w.getP = function(){ return p; }; w.getQ = function(){ return q; }; return arguments; })(1, 2); },
+	math:    function(w){ return Math; },        // lazily templated built-in (fresh runtime per transition)
+	global:  function(w){ return globalThis; },  // the global object (fresh runtime per transition)
 	u8:      function(w){ return new Uint8Array(2); },
 	f64:     function(w){ return new Float64Array(2); },
 	u8c:     function(w){ return new Uint8ClampedArray(2); },
@@ -114,11 +116,13 @@ function parseVariant(v){
 	for (var i = 1; i < parts.length; i++) r.deco.push(parts[i].split(':')); // parent:acc, grand:ro ...
 	return variants[v] = r;
 }
-H.mk = function(kind, variant, keys, hostObj){
+H.mk = function(kind, variant, keys, hostObj, unordered){
 	for (var i = 0; i < worldObjs.length; i++) names.delete(worldObjs[i]);
 	worldObjs.length = 0; log.length = 0;
 	var w = {};
 	w.o = hostObj !== undefined ? hostObj : kinds[kind](w);
+	unorderedObj = unordered ? w.o : null;
+	probeKeys = []; for (var i = 0; i < keys.length; i++) probeKeys.push(keys[i]);
 	w.grand = Object.create(null);
 	w.parent = Object.create(w.grand);
 	setName(w.o, 'o'); setName(w.parent, 'parent'); setName(w.grand, 'grand');
@@ -144,16 +148,24 @@ function fmtDesc(d){
 	if (ks !== 'get,set,enumerable,configurable') s += '!shape:' + ks;
 	return s;
 }
-function klist(a){ var s = '['; for (var i = 0; i < a.length; i++) { if (i) s += ','; s += kn(a[i]); } return s + ']'; }
+var unorderedObj = null, probeKeys = [];
+function sortKeys(a){ return a.slice().sort(function(p, q){ p = kn(p); q = kn(q); return p < q ? -1 : p > q ? 1 : 0; }); }
+function klist(a){ if (unorderedObj !== null && unorderedNow) a = sortKeys(a); var s = '['; for (var i = 0; i < a.length; i++) { if (i) s += ','; s += kn(a[i]); } return s + ']'; }
+var unorderedNow = false;
 // dumpObj: the canonical state of one object (light) or, in addition, the answers of every other
 // own-property reflection route (full; anomalies between routes are flagged with '!').
 function dumpObj(name, x, light){
+	unorderedNow = unorderedObj === x;
+	try { return dumpObj1(name, x, light); } finally { unorderedNow = false; }
+}
+function dumpObj1(name, x, light){
 	var s = name + '{';
 	var fr = Object.isFrozen(x), se = Object.isSealed(x);
 	s += 'x' + (+Object.isExtensible(x));
 	s += ' p' + nm(Object.getPrototypeOf(x));
 	s += ' z' + (+fr) + (+se);
 	var keys = Reflect.ownKeys(x);
+	if (unorderedObj === x) { keys = sortKeys(keys); s += ' u1'; } // Go maps: key order is documented to be unstable
 	s += ' K' + klist(keys);
 	for (var i = 0; i < keys.length; i++) {
 		var k = keys[i];
@@ -185,6 +197,12 @@ function dumpObj(name, x, light){
 	var fi = [];
 	for (var k in x) fi.push(k);
 	s += ' F' + klist(fi);
+	// the probed keys: a key that has a descriptor / answers hasOwnProperty must be listed by ownKeys
+	for (var i = 0; i < probeKeys.length; i++) {
+		var k = probeKeys[i], listed = false;
+		for (var j = 0; j < keys.length; j++) if (keys[j] === k || (typeof k !== 'symbol' && keys[j] === String(k))) listed = true;
+		if (!listed && (Object.getOwnPropertyDescriptor(x, k) !== undefined || hop.call(x, k))) s += ' !unlisted:' + kn(k);
+	}
 	return s + '}';
 }
 H.dumpObj = dumpObj;
